@@ -116,7 +116,7 @@ CHECKS["C08"] = dict(
          "consuming it, key material unmodified; honest exchanges of any path length give identical keys at both ends (26 theorems, "
          "induction over event lists and paths). Tied to the real TunnelCommunity by lockstep correspondence (alpha(state), event -> "
          "step inside Coq = alpha(state')) under scripted adversaries at every position (17 manipulation kinds), plus an independent "
-         "oracle recomputing MACs and keys.",
+         "oracle recomputing MACs and keys. Second property file props/C08x.v (9 theorems): the key-exchange functions of TunnelCrypto, the request-cache constructors and retry time-out, and create_circuit / send_initial_create / send_extend / _ours_on_created_extended / on_created / on_extended / join_circuit / on_create / on_extend are translated statement by statement from the AST every run (tr_handshake, fail closed; the primitives stay symbolic); gen_refines_hand_model (the generated program of every event gives the state, cells and exception of the hand model's step) and the acceptance / established-hops / named-peer theorems over histories of translated events.",
     note="X25519, HMAC, HKDF and AEAD are ideal hypotheses (satisfied by the toy term algebra); randomness and candidate selection are "
          "oracle inputs; onion encryption of extend/extended cells is C04's; the alpha abstraction relies on spies on the primitives. "
          "The MAC does not authenticate the responder (proved as substituted_ephemeral_accepted_keys_stay_secret: dead circuit, no key "
